@@ -58,6 +58,7 @@ type Ctx struct {
 	vtaG    *callgraph.Graph
 	tmpls   map[string]*parse.Tree // lazily: "file.tmpl" or "file.tmpl#define" -> tree
 	tmplErr error
+	tmplFiles map[string]*tmplFile
 
 	loaded []*packages.Package
 	alias  *aliasAnalysis
